@@ -204,7 +204,8 @@ class SlurmManager(HpcManagerInterface):
         ):
             value = getattr(self._config.hpc, param, None)
             if value is not None:
-                lines.append(f"#SBATCH --{param}={value}")
+                option = param.replace("_", "-")
+                lines.append(f"#SBATCH --{option}={value}")
 
         lines.append("")
         lines.append(f"srun {script}")
